@@ -469,6 +469,7 @@ func checkC09(r *Run) {
 	checkFreshFrame(r, rdr, "fresh-frame")
 	checkFreshFrame(r, p.Fn("p9p:(*conn).read"), "fresh-frame")
 	checkDispatchTable(r, "dispatch")
+	checkReplyBufferFresh(r, "fresh-reply-buffer")
 	// "all of them complete": the client's single owner loop delivers replies with plain sends; those never block
 	// (and so never stall every other caller) only because the per-request channels are buffered
 	for _, f := range []string{"field:fcallRequest.response", "field:fcallRequest.err"} {
@@ -482,5 +483,11 @@ func checkC09(r *Run) {
 	// Tread clamp in the dispatcher: the buffer length never exceeds msize-11 when positive and is never negative (bounds rule)
 	n := dischargeBounds(r, h, "bounds", nil)
 	r.Floor("bounds", n, 2, "obligations in the dispatcher")
+	// "callers issuing calls concurrently each obtain their own results": the tag multiplexing on both sides — the
+	// client's rules (tags free and distinct, registered before the write, reply routed to the request found under
+	// the reply's own tag) and the server's (reply built from the request's own tag and its handler's own result,
+	// duplicate tags refused) are necessary conditions of this property too and are evaluated here as well
+	checkC05(r)
+	checkC06(r)
 	r.Exhaustive = true
 }
